@@ -2,6 +2,8 @@ import IpcHub.Drv.Util
 import IpcHub.Model.PullInst
 import IpcHub.Spec.Pull
 import IpcHub.Model.RegistryLts
+import IpcHub.Model.PullDual
+import IpcHub.Spec.PullDual
 namespace IpcHub.Drv.C20
 open IpcHub.Drv IpcHub.Pull IpcHub.PullSpec
 
@@ -126,6 +128,31 @@ def predict (cfg : Cfg) (script : List Resp) (play : List PlayEv) : String :=
     let clean := !w.registered && w.conns == 0
     s!"out={showOutcome o};reqs={reqs};closed={boolStr closed};reg=0;delivered=0;clean={boolStr clean};ka=0"
 
+/-! two simultaneous first requests that both pulled, a consumer on either stream, then both pulls end -/
+
+def parseKind : String → Option IpcHub.PullDual.Kind
+  | "eof" | "rst" | "sil" | "gar" | "trunc" => some .camera
+  | "stop" => some .stop
+  | "idle" => some .idle
+  | _ => none
+
+def parseReg : String → Option Nat
+  | "l" => some 0 | "w" => some 1 | "-" => none | _ => some 2
+
+def parseSObs (ob : List String) (who n : String) : IpcHub.PullDual.SObs :=
+  { ok := kv ob (who ++ "ok" ++ n) = "1", cc := ((kv ob (who ++ "cc" ++ n)).toNat?.getD 99 : Nat),
+    up := kv ob (who ++ "up" ++ n) = "1", cl := kv ob (who ++ "cl" ++ n) = "1", sv := kv ob (who ++ "sv" ++ n) = "1" }
+
+def parseStage (ob : List String) (n : String) : IpcHub.PullDual.Stage :=
+  { reg := parseReg (kv ob ("reg" ++ n)), l := parseSObs ob "l" n, w := parseSObs ob "w" n }
+
+def showSObs (o : IpcHub.PullDual.SObs) : String :=
+  s!"{boolStr o.ok}{o.cc}{boolStr o.up}{boolStr o.cl}{boolStr o.sv}"
+
+def showStage (s : IpcHub.PullDual.Stage) : String :=
+  let r := match s.reg with | none => "-" | some 0 => "l" | some 1 => "w" | some _ => "x"
+  s!"r{r}.l{showSObs s.l}.w{showSObs s.w}"
+
 /-- `pull <scenario k=v …> | <observation k=v …>` → `model=<prediction> verdict=<ok|class>` -/
 def handle : List String → String
   | "pull" :: toks =>
@@ -143,6 +170,17 @@ def handle : List String → String
         s!"model={model} verdict={verdict cfg script o}"
       | _, _ => s!"model={model} verdict=bad-observation"
     | _, _, _ => "bad-op"
+  | "dualc" :: toks =>
+    -- `dualc lc= wc= keep= first=l|w how1= how2= | reg0= lok0= lcc0= lup0= lcl0= lsv0= wok0= … reg2= … leak=`
+    let (sc, ob) := splitBar toks
+    match parseKind (kv sc "how1"), parseKind (kv sc "how2") with
+    | some h1, some h2 =>
+      let scn : IpcHub.PullDual.Scn := { lc := kv sc "lc" = "1", wc := kv sc "wc" = "1", keep := kv sc "keep" = "1",
+                                         loserFirst := kv sc "first" = "l", how1 := h1, how2 := h2 }
+      let m := IpcHub.PullDual.stages IpcHub.Gen.unregistClosesAlways IpcHub.Registry.genFacts scn
+      let v := IpcHub.PullDualSpec.verdict scn (parseStage ob "0") (parseStage ob "1") (parseStage ob "2") (kv ob "leak" = "1")
+      s!"model={showStage m.1}/{showStage m.2.1}/{showStage m.2.2} verdict={v.name}"
+    | _, _ => "bad-op"
   | ["dual"] =>
     -- two pulls whose handshakes succeeded register fresh streams 0 and 1 for one path; the racy
     -- schedule of the harness (first Regist paused after its Load) under the source's locking fact
